@@ -886,6 +886,19 @@ func streamCont(o *Out, r *rand.Rand, n int, thorough bool) {
 		{"t = make([]int64, 1)\nt[0] = 1\nseen = nil\nfunc rec(v) { seen = v }\nfunc g() {\ndefer rec(t[0])\nt[0] = 9\n}\ng()\nseen", "int64:1"},
 		{"t = [1, 2]\nseen = nil\nfunc recv(v...) { seen = v[0] }\nfunc g() {\ndefer recv(t...)\nt[0] = 9\n}\ng()\nseen", "int64:9"},
 		{"t = make([]int64, 2)\nt[0] = 1\nseen = nil\nfunc recv(v...) { seen = v[0] }\nfunc g() {\ndefer recv(t...)\nt[0] = 9\n}\ng()\nseen", "int64:1"},
+		// the container of an index, slice or delete is a value once evaluated: an index / bound / key expression that stores another
+		// container into the slot it was read from does not change which container is read (the same as with a variable)
+		{"x = [1, 2]\nfunc k() { x = [7, 8]; return 0 }\nx[k()]", "int64:1"},
+		{"a = [[1, 2]]\nfunc k() { a[0] = [7, 8]; return 0 }\na[0][k()]", "int64:1"},
+		{"t = make([][]int64, 1)\nt[0] = [1, 2]\nfunc k() { t[0] = [7, 8]; return 0 }\nt[0][k()]", "int64:1"},
+		{"a = [\"ab\"]\nfunc k() { a[0] = \"yz\"; return 1 }\na[0][k()]", "string:" + hexOf("b")},
+		{"a = [{\"k\": 1}]\nfunc k() { a[0] = {\"k\": 2}; return \"k\" }\na[0][k()]", "int64:1"},
+		{"x = make(struct { L []int64 })\nx.L = [1, 2]\nfunc k() { x.L = [7, 8]; return 0 }\nx.L[k()]", "int64:1"},
+		{"a = [[1, 2, 3]]\nfunc k() { a[0] = [7, 8, 9]; return 1 }\na[0][k():]", "[]iface[int64:2 int64:3]"},
+		{"t = make([][]int64, 1)\nt[0] = [1, 2, 3]\nfunc k() { t[0] = [7, 8, 9]; return 1 }\nt[0][k():]", "[]int64[int64:2 int64:3]"},
+		{"t = make([][]int64, 1)\nt[0] = [1, 2, 3]\nfunc k() { t[0] = [7, 8, 9]; return 2 }\nt[0][:k()]", "[]int64[int64:1 int64:2]"},
+		{"ms = [{\"a\": 1}]\nold = ms[0]\nfunc k() { ms[0] = {\"a\": 2, \"b\": 3}; return \"a\" }\ndelete(ms[0], k())\n[len(old), len(ms[0])]", "[]iface[int64:0 int64:2]"},
+		{"m = {\"a\": 1}\nold = m\nfunc k() { m = {\"a\": 2, \"b\": 3}; return \"a\" }\ndelete(m, k())\n[len(old), len(m)]", "[]iface[int64:0 int64:2]"},
 		// a compound assignment on a variable gives the variable the result of the operator - its type included - wherever the variable's
 		// value came from
 		{"ints = make([]int64, 1)\nints[0] = 1\nn = ints[0]\nn += 0.5\nn", "float64:1.5"},
